@@ -112,6 +112,9 @@ class Ctx(object):
         if self.ambient.get("gc") and self._calls % 64 == 0:
             import gc
             gc.collect()
+        if self.ambient.get("rejects") and self._calls % 3 == 0:
+            from . import ambient
+            ambient.rejected_call(self._calls // 3)
         if self.ambient.get("thread") and self._calls % 2 == 1:
             from . import ambient
             return ambient.hop(fn, *args)
